@@ -155,6 +155,18 @@ func c03Run(c *core.Ctx, idx int, h *hist.History, tables []*hist.Table, only in
 			c.Violation("c03:dump-request-differs", fmt.Sprintf("hist %d: requested %s,%d for position %v", idx, res.Dump.File, res.Dump.Pos, from), wit())
 			return nil, false
 		}
+		if res.Dump == nil {
+			c.Violation("c03:resume-refused", fmt.Sprintf("hist %d: a stream started at %v (end label of delivery %d) sent no dump request: %s", idx, from, scn.Resume, errStr(res.Err)), wit())
+			return nil, false
+		}
+		if res.Err != nil {
+			c.Violation("c03:resume-fails", fmt.Sprintf("hist %d: a stream started at %v (end label of delivery %d) failed: %s", idx, from, scn.Resume, errStr(res.Err)), wit())
+			return nil, false
+		}
+		if why := retainedChanged(res.Delivered); why != "" {
+			c.Violation("c03:labels-changed-later", fmt.Sprintf("hist %d: %s", idx, why), wit())
+			return nil, false
+		}
 		if d := run.CompareAll(want, res.Delivered, true); d != nil {
 			key := "c03:resume:" + d.Kind
 			if scn.Resume < 0 {
